@@ -102,7 +102,7 @@ Proof.
                                                else v <~ get_variable fb (t + 1) f l ;; COk [[zn v]]) pl
                                = COk (map (fun t => [[zn (gvar fb t f l)]]) pl)).
     { induction pl as [|a pl IH]; [reflexivity|]. cbn [cmapM map].
-      rewrite (f1_applies fb HF1 f (a + 1)). cbn [negb].
+      rewrite (f1_applies fb HF1 f (a + 1) Hf). cbn [negb].
       rewrite Nat.add_1_r, (f1_get_variable fb HF1 f l a Hf Hl). cbn [cbind]. rewrite IH. reflexivity. }
     rewrite Evars. cbn [cbind]. eexists. reflexivity.
   - (* Sequential *) exact (sequential_total fb HF1 HT _ fresh Hc).
